@@ -76,7 +76,8 @@ Section C01.
   Definition c01_half : T := lit OP 1 (-1).
   Definition c01_lo : T := sub OP (neg OP c01_half) c01_eps.                       (* -0.5 - epsilon *)
   Definition c01_hi (n : Z) : T := add OP (sub OP (ofZ OP n) c01_half) c01_eps.   (* n - 0.5 + epsilon *)
-  Definition c01_area_mask (n : Z) (v : T) : bool := orb (ltb OP v c01_lo) (ltb OP (c01_hi n) v).
+  (* (v < -0.5 - eps) | (v > n - 0.5 + eps) | isnan(v) *)
+  Definition c01_area_mask (n : Z) (v : T) : bool := orb (orb (ltb OP v c01_lo) (ltb OP (c01_hi n) v)) (isnan OP v).
   Definition c01_clip (n : Z) (v : T) : T := fmin OP (fmax OP v (ofZ OP 0)) (ofZ OP (n - 1)).   (* np.clip(v, 0, n-1) *)
   Definition c01_area_index (n : Z) (v : T) : Z := rintZ OP (c01_clip n v).      (* np.round(..).astype(int) *)
   Definition c01_masked_index (n : Z) (v : T) : option Z :=
